@@ -111,7 +111,8 @@ theorem startLookup_sends_partial (a : Actor) (k : GetKind) (target : Id) (extra
 
 /-- a server answers `find_node` with its own id and its closest nodes -/
 theorem server_answers_find_node_partial (c : Core) (hs : c.serverMode = true) (env : Env) (src : Addr)
-    (version : Option Bytes) (rid target : Id) (ro : Bool) :
+    (version : Option Bytes) (rid target : Id) (ro : Bool)
+    (ha : c.allow { requesterId := rid, rtype := .findNode target } src = true) :
     ∃ nodes, (handleRequest c env src ro version { requesterId := rid, rtype := .findNode target }).2.1 =
       some (.response (.findNode (handleRequest c env src ro version { requesterId := rid, rtype := .findNode target }).1.rt.id nodes)) := by
   have hsm : ∀ c' : Core, (verifySelfPing c' src { requesterId := rid, rtype := .findNode target } env.now) = (c', false) := by
@@ -129,11 +130,14 @@ theorem server_answers_find_node_partial (c : Core) (hs : c.serverMode = true) (
       · split <;> exact hs
       · split <;> exact hs
     · exact hs
-  unfold handleRequest serveRequest
+  have hma := maybeAdd_allow c src version ro { requesterId := rid, rtype := .findNode target } env.now
+  unfold handleRequest
+  simp only [ha, Bool.not_true, Bool.false_eq_true, ite_false]
+  unfold serveRequest
   rw [hsm]
   simp only [hm, ite_true]
   unfold Server.handleRequest
-  simp only [Bool.not_true, Bool.false_eq_true, ite_false]
+  simp only [hma, ha, Bool.not_true, Bool.false_eq_true, ite_false]
   split <;> exact ⟨_, rfl⟩
 
 /-- the first node of a network (no bootstrap list) offers every non-read-only `find_node`
